@@ -52,8 +52,8 @@ def targets():
         mk('ecef2geodetic_u', X, lambda A, v: _unrolled_ecef2geodetic(A, v, X),
            f'public ecef2geodetic, loop cut after {UNROLL} iterations (Raise KeyError leaf = budget)'),
         mk('ecef2lla_u', X, lambda A, v: _unrolled_ecef2geodetic(A, v, X, entry='ecef2lla'), 'synonym ecef2lla, same cut'),
-        mk('ecef2geodetic_ab_u', X + ['a', 'b'], lambda A, v: _unrolled_ecef2geodetic(A, v, X + ['a', 'b'], 2),
-           'any ellipsoid, loop cut after 2 iterations'),
+        mk('ecef2geodetic_ab_u', X + ['a', 'b'], lambda A, v: _unrolled_ecef2geodetic(A, v, X + ['a', 'b']),
+           'any ellipsoid (a, b symbolic), same cut'),
         mk('ecef2enuv', X + X0 + ['lat', 'lon'], lambda A, v: Fm(A).ecef2enuv(v.x, v.y, v.z, v.x0, v.y0, v.z0, v.lat, v.lon)),
         mk('ecef2enu', X + G, lambda A, v: Fm(A).ecef2enu(v.x, v.y, v.z, v.lat, v.lon, v.h)),
         mk('enu2uvw', ENU + ['lat', 'lon'], lambda A, v: Fm(A).enu2uvw(v.e, v.n, v.u, v.lat, v.lon), "angle_unit='deg' (default)"),
